@@ -135,6 +135,7 @@ type wSess struct {
 	closed  bool // cleanUp has been called (by harness or after server-side stop)
 	stopped bool // write loop has exited
 	pause   atomic.Bool
+	needClean atomic.Bool // server stopped the session: cleanUp is due on the dispatching goroutine
 	mu      sync.Mutex
 }
 
@@ -329,9 +330,25 @@ func (w *wWorld) restart() {
 	w.settle()
 }
 
+// sweep performs the cleanUp of sessions the server has terminated (main goroutine only).
+func (w *wWorld) sweep() bool {
+	did := false
+	for _, ss := range w.sess {
+		if ss != nil && ss.needClean.CompareAndSwap(true, false) {
+			ss.s.cleanUp(false)
+			did = true
+		}
+	}
+	return did
+}
+
 func (w *wWorld) settle() {
 	time.Sleep(time.Millisecond)
 	synctest.Wait()
+	if w.sweep() {
+		time.Sleep(time.Millisecond)
+		synctest.Wait()
+	}
 }
 
 // tick advances the virtual clock in steps short enough that live long-poll sessions keep
@@ -344,6 +361,9 @@ func (w *wWorld) tick(d time.Duration) {
 		}
 		time.Sleep(step)
 		synctest.Wait()
+		if w.sweep() {
+			synctest.Wait()
+		}
 		d -= step
 		now := time.Now()
 		for _, ss := range w.sess {
@@ -466,7 +486,9 @@ func (ss *wSess) onStop(m any) {
 		ss.closed = true
 		ss.mu.Unlock()
 		if !already {
-			ss.s.cleanUp(false)
+			// The real read loop (the goroutine which also dispatches this session's requests) would
+			// now fail and clean up: leave it to the harness's dispatching goroutine (wWorld.sweep).
+			ss.needClean.Store(true)
 		}
 	}
 }
@@ -477,6 +499,9 @@ func (w *wWorld) disconnect(ss *wSess) {
 	ss.closed = true
 	ss.mu.Unlock()
 	if already {
+		if ss.needClean.CompareAndSwap(true, false) {
+			ss.s.cleanUp(false)
+		}
 		return
 	}
 	ss.pause.Store(false)
@@ -671,6 +696,10 @@ type wTopicSnap struct {
 	Loaded   bool
 }
 
+// wSnapPerSubs: copy the contact tables of 'me' topics too (C10 only: timers write them with no
+// happens-before edge from the harness, which the race-detector build of C14 would report).
+var wSnapPerSubs bool
+
 // liveTopics reads hub state; call only at quiescence.
 func (w *wWorld) liveTopics() map[string]*wTopicSnap {
 	out := map[string]*wTopicSnap{}
@@ -687,8 +716,10 @@ func (w *wWorld) liveTopics() map[string]*wTopicSnap {
 			ts.Sessions[s.sid] = p
 		}
 		ts.PerSubs = map[string]perSubsData{}
-		for k, v := range t.perSubs {
-			ts.PerSubs[k] = v
+		if wSnapPerSubs {
+			for k, v := range t.perSubs {
+				ts.PerSubs[k] = v
+			}
 		}
 		ts.Loaded = t.isLoaded()
 		out[k.(string)] = ts
